@@ -68,6 +68,8 @@ func (in *Interp) resetPath(prefix []int) {
 	in.curFrame = nil
 	in.Effects = nil
 	in.SharedWrites = nil
+	in.sched = nil
+	in.GoroutinesStarted = 0
 	in.lastClock = nil
 	in.facts = in.facts[:0]
 	in.factMap = map[string]bool{}
@@ -83,6 +85,16 @@ func (in *Interp) runPath(fn *ssa.Function, prefix []int, model map[string]Model
 	in.setModel(model)
 	defer func() {
 		r := recover()
+		if in.sched != nil {
+			if _, ok := r.(*tearDown); ok {
+				r = in.sched.abort
+			}
+			// tear down the remaining simulated goroutines
+			in.sched.finish(r)
+			if _, ok := r.(*tearDown); ok {
+				r = nil
+			}
+		}
 		if r == nil {
 			return
 		}
@@ -124,6 +136,14 @@ func (in *Interp) runPath(fn *ssa.Function, prefix []int, model map[string]Model
 		}
 	}()
 	in.callSSA(fn, nil, nil, nil)
+	if in.sched != nil {
+		in.sched.quiesce()
+	}
+	if in.sched != nil && len(in.sched.races) > 0 {
+		for _, msg := range in.sched.races {
+			in.recordViolation("race", "data-race", msg, nil)
+		}
+	}
 	h.Completed++
 	if len(h.Samples) < 6 {
 		h.Samples = append(h.Samples, in.pathSample())
@@ -482,6 +502,17 @@ func registerHarnessIntrinsics(in *Interp, pkgPath string) {
 			in.H.Samples = append(in.H.Samples, msg)
 		}
 		return BVConst(uint64(n), 64)
+	})
+	reg("verifEnableRaceDetector", func(in *Interp, fr *Frame, a []V) V {
+		in.ensureSched().raceOn = true
+		return nil
+	})
+	reg("verifLiveGoroutines", func(in *Interp, fr *Frame, a []V) V {
+		if in.sched == nil {
+			return BVConst(0, 64)
+		}
+		in.sched.quiesce()
+		return BVConst(uint64(in.sched.live()), 64)
 	})
 	reg("verifEffects", func(in *Interp, fr *Frame, a []V) V {
 		return BVConst(uint64(len(in.Effects)), 64)
